@@ -2,5 +2,531 @@
 import MelModel.Chain
 import MelModel.Lemmas.Counts
 import MelModel.Lemmas.Confirm
+import MelModel.Lemmas.FeeMult
 namespace Mel
+open Mel.Gen
+
+/-! ### generic facts about `Outcome` folds -/
+
+theorem Outcome.bind_ne_ok_of_ne_ok {α β} {x : Outcome α} (f : α → Outcome β)
+    (h : ∀ a, x ≠ .ok a) : ∀ b, x.bind f ≠ .ok b := by
+  intro b hb
+  obtain ⟨a, ha, _⟩ := Outcome.bind_eq_ok hb
+  exact h a ha
+
+/-- in a successful fold every element was processed successfully from some accumulator -/
+theorem Outcome.foldlM'_ok_mem {α β} (f : β → α → Outcome β) :
+    ∀ (l : List α) (b b' : β) (a : α), a ∈ l → Outcome.foldlM' f b l = .ok b' →
+      ∃ b1 b2, f b1 a = .ok b2 := by
+  intro l
+  induction l with
+  | nil => intro b b' a ha; cases ha
+  | cons x xs ih =>
+    intro b b' a ha h
+    simp only [Outcome.foldlM'] at h
+    split at h
+    · next b1 hb1 =>
+      rcases List.mem_cons.mp ha with rfl | ha
+      · exact ⟨b, b1, hb1⟩
+      · exact ih b1 b' a ha h
+    · cases h
+    · cases h
+
+theorem Outcome.forM'_ok_mem {α} (f : α → Outcome Unit) :
+    ∀ (l : List α) (a : α), a ∈ l → Outcome.forM' f l = .ok () → f a = .ok () := by
+  intro l
+  induction l with
+  | nil => intro a ha; cases ha
+  | cons x xs ih =>
+    intro a ha h
+    simp only [Outcome.forM'] at h
+    split at h
+    · next hx =>
+      rcases List.mem_cons.mp ha with rfl | ha
+      · exact hx
+      · exact ih a ha h
+    · cases h
+    · cases h
+
+/-! ### `AList` lookups -/
+
+namespace AList
+variable {κ ν : Type} [DecidableEq κ]
+
+/-- replaying a list of entries (last to first) with `set` onto a base map: the lookup is the
+    list's own lookup, falling back to the base -/
+theorem get_foldr_set (l : AList κ ν) (base : AList κ ν) (k : κ) :
+    get (l.foldr (fun e acc => set acc e.1 e.2) base) k = (get l k).or (get base k) := by
+  induction l with
+  | nil => simp [get]
+  | cons e rest ih =>
+    obtain ⟨k', v⟩ := e
+    simp only [List.foldr_cons]
+    by_cases h : k' = k
+    · subst h; rw [get_set_self]; simp [get_cons]
+    · have h' : k ≠ k' := fun h2 => h h2.symm
+      rw [get_set_ne _ _ h', ih]; simp [get_cons, h]
+
+theorem get_reverse_foldl_set (l : AList κ ν) (base : AList κ ν) (k : κ) :
+    get (l.reverse.foldl (fun acc e => set acc e.1 e.2) base) k = (get l k).or (get base k) := by
+  rw [List.foldl_reverse]; exact get_foldr_set l base k
+
+/-- with unique keys, filtering keeps exactly the entries satisfying the predicate -/
+theorem get_filter (p : κ × ν → Bool) (m : AList κ ν) (hn : (keys m).Nodup) (k : κ) :
+    get (m.filter p) k =
+      match get m k with
+      | some v => if p (k, v) then some v else none
+      | none => none := by
+  induction m with
+  | nil => simp [get]
+  | cons e rest ih =>
+    obtain ⟨k', v⟩ := e
+    simp only [keys, List.map_cons, List.nodup_cons] at hn
+    have ih' := ih hn.2
+    by_cases h : k' = k
+    · subst h
+      have hnone : get rest k' = none := (get_eq_none_iff_not_mem_keys _ _).mpr hn.1
+      rw [hnone] at ih'
+      simp only [List.filter_cons, get_cons, if_true]
+      by_cases hp : p (k', v) = true
+      · simp [hp, get_cons]
+      · simp [hp, ih']
+    · simp only [List.filter_cons, get_cons, h, if_false]
+      by_cases hp : p (k', v) = true
+      · simp [hp, get_cons, h, ih']
+      · simp [hp, ih']
+
+theorem contains_set (m : AList κ ν) (k k' : κ) (v : ν) (h : contains m k' = true) :
+    contains (set m k v) k' = true := by
+  unfold contains at *
+  by_cases hk : k' = k
+  · subst hk; rw [get_set_self]; rfl
+  · rw [get_set_ne _ _ hk]; exact h
+
+theorem contains_set_self (m : AList κ ν) (k : κ) (v : ν) : contains (set m k v) k = true := by
+  unfold contains; rw [get_set_self]; rfl
+
+end AList
+
+/-! ### the stake set is untouched by sealing -/
+
+def SameSt (s s' : State) : Prop := s'.stakes = s.stakes
+
+theorem SameSt.refl (s : State) : SameSt s s := rfl
+theorem SameSt.trans {a b c : State} (h1 : SameSt a b) (h2 : SameSt b c) : SameSt a c :=
+  Eq.trans h2 h1
+
+theorem processSwapsForPool_sameSt (k : PoolKey) (s : State) (swaps : List Tx) (s' : State)
+    (h : processSwapsForPool k s swaps = .ok s') : SameSt s s' := by
+  unfold processSwapsForPool at h
+  split at h
+  · cases h
+  · simp only at h
+    split at h
+    · cases h
+    · cases h
+    · obtain ⟨coins, _, h2⟩ := Outcome.bind_eq_ok h
+      cases h2; rfl
+
+theorem processSwaps_sameSt (s s' : State) (h : processSwaps s = .ok s') : SameSt s s' := by
+  unfold processSwaps at h
+  exact Outcome.foldlM'_inv (SameSt s) _
+    (fun b a b' hb hf => hb.trans (processSwapsForPool_sameSt _ _ _ _ hf)) _ _ _ (SameSt.refl s) h
+
+theorem processDepositsForPool_sameSt (env : Env) (k : PoolKey) (s : State) (deps : List Tx) (s' : State)
+    (h : processDepositsForPool env k s deps = .ok s') : SameSt s s' := by
+  unfold processDepositsForPool at h
+  simp only at h
+  split at h
+  · cases h
+  · cases h
+  · obtain ⟨coins, _, h2⟩ := Outcome.bind_eq_ok h
+    cases h2; rfl
+
+theorem processDeposits_sameSt (env : Env) (s s' : State) (h : processDeposits env s = .ok s') :
+    SameSt s s' := by
+  unfold processDeposits at h
+  exact Outcome.foldlM'_inv (SameSt s) _
+    (fun b a b' hb hf => hb.trans (processDepositsForPool_sameSt _ _ _ _ _ hf)) _ _ _ (SameSt.refl s) h
+
+theorem processWithdrawalsForPool_sameSt (k : PoolKey) (s : State) (reqs : List Tx) (s' : State)
+    (h : processWithdrawalsForPool k s reqs = .ok s') : SameSt s s' := by
+  unfold processWithdrawalsForPool at h
+  simp only at h
+  split at h
+  · cases h
+  · split at h
+    · cases h; exact SameSt.refl _
+    · split at h
+      · cases h
+      · cases h
+      · obtain ⟨coins, _, h2⟩ := Outcome.bind_eq_ok h
+        cases h2; rfl
+
+theorem processWithdrawals_sameSt (env : Env) (s s' : State) (h : processWithdrawals env s = .ok s') :
+    SameSt s s' := by
+  unfold processWithdrawals at h
+  exact Outcome.foldlM'_inv (SameSt s) _
+    (fun b a b' hb hf => hb.trans (processWithdrawalsForPool_sameSt _ _ _ _ hf)) _ _ _ (SameSt.refl s) h
+
+theorem createBuiltins_sameSt (s : State) : SameSt s (createBuiltins s) := rfl
+
+theorem processPegging_sameSt (s s' : State) (h : processPegging s = .ok s') : SameSt s s' := by
+  unfold processPegging at h
+  simp only at h
+  obtain ⟨⟨a, b⟩, _, h⟩ := Outcome.bind_eq_ok h
+  simp only at h
+  obtain ⟨sm, _, h⟩ := Outcome.bind_eq_ok h
+  split at h
+  · cases h
+  · obtain ⟨sm1, _, h⟩ := Outcome.bind_eq_ok h
+    obtain ⟨sm2, _, h⟩ := Outcome.bind_eq_ok h
+    cases h; rfl
+
+theorem presealMelmint_sameSt (env : Env) (s s' : State) (h : presealMelmint env s = .ok s') :
+    SameSt s s' := by
+  unfold presealMelmint at h
+  simp only at h
+  split at h
+  · cases h
+  · obtain ⟨s1, h1, h⟩ := Outcome.bind_eq_ok h
+    obtain ⟨s2, h2, h⟩ := Outcome.bind_eq_ok h
+    obtain ⟨s3, h3, h⟩ := Outcome.bind_eq_ok h
+    exact ((((createBuiltins_sameSt s).trans (processSwaps_sameSt _ _ h1)).trans
+      (processDeposits_sameSt _ _ _ h2)).trans (processWithdrawals_sameSt _ _ _ h3)).trans
+      (processPegging_sameSt _ _ h)
+
+theorem applyTip909_sameSt (s s' : State) (h : applyTip909 s = .ok s') : SameSt s s' := by
+  unfold applyTip909 at h
+  simp only at h
+  split at h
+  · cases h
+  · split at h
+    · cases h
+    · obtain ⟨⟨sm', mel, x⟩, _, h⟩ := Outcome.bind_eq_ok h
+      simp only at h
+      split at h
+      · cases h
+      · split at h
+        · cases h
+        · obtain ⟨⟨es', y, z⟩, _, h⟩ := Outcome.bind_eq_ok h
+          cases h; rfl
+
+theorem collectProposerFee_sameSt (env : Env) (s : State) (a : ProposerAction) (s' : State)
+    (h : collectProposerFee env s a = .ok s') : SameSt s s' := by
+  unfold collectProposerFee at h
+  simp only at h
+  split at h
+  · cases h
+  · cases h; rfl
+
+theorem applyProposerAction_sameSt (env : Env) (s : State) (a : ProposerAction) (s' : State)
+    (h : applyProposerAction env s a = .ok s') : SameSt s s' := by
+  unfold applyProposerAction at h
+  have := collectProposerFee_sameSt _ _ _ _ h
+  exact this
+
+theorem sealState_sameSt (env : Env) (s : State) (action : Option ProposerAction) (ss : Sealed)
+    (h : sealState env s action = .ok ss) : ss.st.stakes = s.stakes := by
+  unfold sealState at h
+  obtain ⟨s1, h1, h⟩ := Outcome.bind_eq_ok h
+  have e1 : SameSt s s1 := presealMelmint_sameSt _ _ _ h1
+  split at h
+  · cases h
+  · obtain ⟨s2, h2, h⟩ := Outcome.bind_eq_ok h
+    have e2 : SameSt s1 s2 := by
+      split at h2
+      · exact applyTip909_sameSt _ _ h2
+      · cases h2; exact SameSt.refl _
+    split at h
+    · cases h; exact e1.trans e2
+    · obtain ⟨s3, h3, h⟩ := Outcome.bind_eq_ok h
+      cases h
+      exact (e1.trans e2).trans (applyProposerAction_sameSt _ _ _ _ h3)
+
+/-! ### `createNextState` never changes the stakes -/
+
+theorem handleFaucetTx_stakes (env : Env) (s : State) (tx : Tx) (s' : State)
+    (h : handleFaucetTx env s tx = .ok s') : s'.stakes = s.stakes := by
+  unfold handleFaucetTx at h
+  simp only at h
+  split at h
+  · cases h
+  · split at h
+    · cases h
+    · split at h
+      · cases h; rfl
+      · cases h; rfl
+
+theorem createNextState_stakes (env : Env) (s : State) (txs : List Tx) (rel : Relevant) (tip : Bool)
+    (s' : State) (h : createNextState env s txs rel tip = .ok s') : s'.stakes = s.stakes := by
+  unfold createNextState at h
+  simp only at h
+  refine Outcome.foldlM'_inv (fun st : State => st.stakes = s.stakes) _ ?_ _ _ _ (by rfl) h
+  intro b a b' hb hf
+  obtain ⟨st1, h1, hf⟩ := Outcome.bind_eq_ok hf
+  obtain ⟨c2, _, hf⟩ := Outcome.bind_eq_ok hf
+  obtain ⟨mf, _, hf⟩ := Outcome.bind_eq_ok hf
+  have e1 : st1.stakes = b.stakes := by
+    split at h1
+    · exact handleFaucetTx_stakes _ _ _ _ h1
+    · cases h1; rfl
+  split at hf
+  · cases hf
+  · cases hf; exact e1.trans hb
+
+/-! ### `loadStakeInfo` -/
+
+/-- copy of `Registers` (Props/C13.lean), definitionally the same -/
+def StakeRegisters (s : State) (tx : Tx) (d : StakeDoc) : Prop :=
+  tx.kind = .stake ∧ legacyStakeReg s = false ∧ tx.stakeDoc = some d ∧
+  ∃ first, tx.outputs.head? = some first ∧ first.denom = .sym ∧
+    d.eStart > s.epoch ∧ d.ePostEnd > d.eStart ∧ d.symsStaked = first.value
+
+theorem StakeRegisters.unique {s : State} {tx : Tx} {d d' : StakeDoc}
+    (h : StakeRegisters s tx d) (h' : StakeRegisters s tx d') : d = d' := by
+  have := h.2.2.1.symm.trans h'.2.2.1
+  exact Option.some.inj this
+
+/-- one step of `load_stake_info` -/
+def stakeStep (s : State) (acc : AList Hash StakeDoc) (tx : Tx) : Outcome (AList Hash StakeDoc) :=
+  if tx.kind ≠ .stake then .ok acc
+  else if legacyStakeReg s then .ok acc
+  else match tx.stakeDoc with
+    | none => .reject .malformedTx
+    | some d =>
+      match tx.outputs with
+      | [] => .reject .malformedTx
+      | first :: _ =>
+        if first.denom ≠ .sym then .reject .malformedTx
+        else if stakeIsConsistent d s.epoch first then .ok (acc.set tx.hash d)
+        else .ok acc
+
+theorem loadStakeInfo_eq (s : State) (txs : List Tx) :
+    loadStakeInfo s txs = Outcome.foldlM' (stakeStep s) [] txs := rfl
+
+theorem stakeStep_ok (s : State) (acc acc' : AList Hash StakeDoc) (tx : Tx)
+    (h : stakeStep s acc tx = .ok acc') :
+    (∃ d, StakeRegisters s tx d ∧ acc' = acc.set tx.hash d) ∨
+    ((∀ d, ¬ StakeRegisters s tx d) ∧ acc' = acc) := by
+  unfold stakeStep at h
+  split at h
+  · next hk =>
+    cases h
+    exact .inr ⟨fun d hd => hk hd.1, rfl⟩
+  · split at h
+    · next hl =>
+      cases h
+      exact .inr ⟨fun d hd => by have := hd.2.1; simp [hl] at this, rfl⟩
+    · next hk hl =>
+      split at h
+      · cases h
+      · next d hd =>
+        split at h
+        · cases h
+        · next first rest ho =>
+          split at h
+          · cases h
+          · next hden =>
+            split at h
+            · next hc =>
+              cases h
+              left
+              refine ⟨d, ⟨by simpa using hk, by simpa using hl, hd, first, by simp [ho], by simpa using hden, ?_⟩, rfl⟩
+              simpa [stakeIsConsistent, and_assoc] using hc
+            · next hc =>
+              cases h
+              right
+              refine ⟨?_, rfl⟩
+              intro d' hd'
+              obtain ⟨_, _, hdoc, f, hf, _, h1, h2, h3⟩ := hd'
+              rw [hd] at hdoc; cases hdoc
+              simp [ho] at hf; subst hf
+              apply hc
+              simp [stakeIsConsistent, h1, h2, h3]
+
+/-- a malformed stake transaction stops `load_stake_info` -/
+theorem stakeStep_malformed (s : State) (tx : Tx) (hk : tx.kind = .stake) (hl : legacyStakeReg s = false)
+    (hbad : tx.stakeDoc = none ∨ tx.outputs = [] ∨ ∃ o, tx.outputs.head? = some o ∧ o.denom ≠ .sym)
+    (acc acc' : AList Hash StakeDoc) : stakeStep s acc tx ≠ .ok acc' := by
+  intro h
+  unfold stakeStep at h
+  simp only [hk, hl, ne_eq, not_true_eq_false, if_false, Bool.false_eq_true] at h
+  split at h
+  · cases h
+  · next d hd =>
+    split at h
+    · cases h
+    · next first rest ho =>
+      rcases hbad with hb | hb | ⟨o, ho', hden⟩
+      · rw [hd] at hb; cases hb
+      · rw [ho] at hb; cases hb
+      · simp [ho] at ho'; subst ho'
+        simp [hden] at h
+
+theorem stakeFold_get_of_no_hash (s : State) (k : Hash) :
+    ∀ (txs : List Tx) (acc out : AList Hash StakeDoc),
+      Outcome.foldlM' (stakeStep s) acc txs = .ok out → (∀ tx ∈ txs, tx.hash ≠ k) →
+      out.get k = acc.get k := by
+  intro txs
+  induction txs with
+  | nil => intro acc out h _; simp only [Outcome.foldlM'] at h; cases h; rfl
+  | cons x xs ih =>
+    intro acc out h hne
+    simp only [Outcome.foldlM'] at h
+    split at h
+    · next acc1 h1 =>
+      rw [ih acc1 out h (fun tx ht => hne tx (List.mem_cons_of_mem _ ht))]
+      have hx : k ≠ x.hash := fun e => hne x (List.mem_cons_self ..) e.symm
+      rcases stakeStep_ok _ _ _ _ h1 with ⟨d, _, rfl⟩ | ⟨_, rfl⟩
+      · exact AList.get_set_ne _ _ hx
+      · rfl
+    · cases h
+    · cases h
+
+/-- with distinct transaction hashes, the map built by `load_stake_info` holds exactly the registered
+    documents (on top of the initial accumulator) -/
+theorem stakeFold_get_iff (s : State) (k : Hash) (d : StakeDoc) :
+    ∀ (txs : List Tx) (acc out : AList Hash StakeDoc),
+      Outcome.foldlM' (stakeStep s) acc txs = .ok out → (txs.map (·.hash)).Nodup →
+      (out.get k = some d ↔
+        (∃ tx ∈ txs, tx.hash = k ∧ StakeRegisters s tx d) ∨
+        ((∀ tx ∈ txs, tx.hash = k → ∀ d', ¬ StakeRegisters s tx d') ∧ acc.get k = some d)) := by
+  intro txs
+  induction txs with
+  | nil =>
+    intro acc out h _
+    simp only [Outcome.foldlM'] at h; cases h
+    simp
+  | cons x xs ih =>
+    intro acc out h hn
+    simp only [List.map_cons, List.nodup_cons] at hn
+    simp only [Outcome.foldlM'] at h
+    split at h
+    · next acc1 h1 =>
+      by_cases hx : x.hash = k
+      · -- no later transaction has this hash
+        have hno : ∀ tx ∈ xs, tx.hash ≠ k := by
+          intro tx ht e
+          exact hn.1 (List.mem_map.mpr ⟨tx, ht, e.trans hx.symm⟩)
+        rw [stakeFold_get_of_no_hash s k xs acc1 out h hno]
+        rcases stakeStep_ok _ _ _ _ h1 with ⟨d0, hr, rfl⟩ | ⟨hnr, rfl⟩
+        · rw [hx, AList.get_set_self]
+          constructor
+          · intro e; cases e
+            exact .inl ⟨x, List.mem_cons_self .., hx, hr⟩
+          · rintro (⟨tx, ht, htk, hreg⟩ | ⟨hall, _⟩)
+            · rcases List.mem_cons.mp ht with rfl | ht
+              · rw [hr.unique hreg]
+              · exact absurd htk (hno tx ht)
+            · exact absurd hr (hall x (List.mem_cons_self ..) hx d0)
+        · constructor
+          · intro e
+            refine .inr ⟨?_, e⟩
+            intro tx ht htk
+            rcases List.mem_cons.mp ht with rfl | ht
+            · exact hnr
+            · exact absurd htk (hno tx ht)
+          · rintro (⟨tx, ht, htk, hreg⟩ | ⟨_, e⟩)
+            · rcases List.mem_cons.mp ht with rfl | ht
+              · exact absurd hreg (hnr d)
+              · exact absurd htk (hno tx ht)
+            · exact e
+      · have hacc : acc1.get k = acc.get k := by
+          have hx' : k ≠ x.hash := fun e => hx e.symm
+          rcases stakeStep_ok _ _ _ _ h1 with ⟨d0, _, rfl⟩ | ⟨_, rfl⟩
+          · exact AList.get_set_ne _ _ hx'
+          · rfl
+        rw [ih acc1 out h hn.2, hacc]
+        constructor
+        · rintro (⟨tx, ht, htk, hreg⟩ | ⟨hall, e⟩)
+          · exact .inl ⟨tx, List.mem_cons_of_mem _ ht, htk, hreg⟩
+          · refine .inr ⟨?_, e⟩
+            intro tx ht htk
+            rcases List.mem_cons.mp ht with rfl | ht
+            · exact absurd htk hx
+            · exact hall tx ht htk
+        · rintro (⟨tx, ht, htk, hreg⟩ | ⟨hall, e⟩)
+          · rcases List.mem_cons.mp ht with rfl | ht
+            · exact absurd htk hx
+            · exact .inl ⟨tx, ht, htk, hreg⟩
+          · exact .inr ⟨fun tx ht => hall tx (List.mem_cons_of_mem _ ht), e⟩
+    · cases h
+    · cases h
+
+theorem stakeFold_contains_mono (s : State) (k : Hash) (txs : List Tx) (acc out : AList Hash StakeDoc)
+    (h : Outcome.foldlM' (stakeStep s) acc txs = .ok out) (hc : acc.contains k = true) :
+    out.contains k = true := by
+  refine Outcome.foldlM'_inv (fun m : AList Hash StakeDoc => m.contains k = true) _ ?_ _ _ _ hc h
+  intro b a b' hb hf
+  rcases stakeStep_ok _ _ _ _ hf with ⟨d0, _, rfl⟩ | ⟨_, rfl⟩
+  · exact AList.contains_set _ _ _ _ hb
+  · exact hb
+
+/-- a registering transaction's hash is a key of the map built by `load_stake_info` (a later
+    transaction with the same hash can overwrite but not delete it) -/
+theorem stakeFold_contains (s : State) (t : Tx) (d : StakeDoc) (hr : StakeRegisters s t d) :
+    ∀ (txs : List Tx) (acc out : AList Hash StakeDoc),
+      Outcome.foldlM' (stakeStep s) acc txs = .ok out → t ∈ txs → out.contains t.hash = true := by
+  intro txs
+  induction txs with
+  | nil => intro acc out _ ht; cases ht
+  | cons x xs ih =>
+    intro acc out h ht
+    simp only [Outcome.foldlM'] at h
+    split at h
+    · next acc1 h1 =>
+      rcases List.mem_cons.mp ht with rfl | ht
+      · apply stakeFold_contains_mono s _ xs acc1 out h
+        rcases stakeStep_ok _ _ _ _ h1 with ⟨d0, _, rfl⟩ | ⟨hnr, rfl⟩
+        · exact AList.contains_set_self _ _ _
+        · exact absurd hr (hnr d)
+      · exact ih acc1 out h ht
+    · cases h
+    · cases h
+
+theorem loadStakeInfo_legacy (s : State) (txs : List Tx) (h : legacyStakeReg s = true) :
+    loadStakeInfo s txs = .ok [] := by
+  rw [loadStakeInfo_eq]
+  generalize ([] : AList Hash StakeDoc) = acc
+  induction txs with
+  | nil => rfl
+  | cons x xs ih =>
+    have : stakeStep s acc x = .ok acc := by
+      unfold stakeStep; simp [h]
+    simp only [Outcome.foldlM', this, ih]
+
+/-! ### decomposition of a successful `applyBatch` -/
+
+theorem applyBatch_ok (env : Env) (s s' : State) (txs : List Tx) (fb : Header)
+    (h : applyBatch env s txs fb = .ok s') :
+    ∃ rel newStakes,
+      loadRelevantCoins s txs = .ok rel ∧ loadStakeInfo s txs = .ok newStakes ∧
+      Outcome.forM' (fun tx => checkTxValidity env s (lastHeaderOf s fb) tx rel newStakes) txs = .ok () ∧
+      s'.stakes = newStakes.reverse.foldl (fun st e => StakeSet.addStake st e.1 e.2) s.stakes := by
+  unfold applyBatch at h
+  obtain ⟨rel, hrel, h⟩ := Outcome.bind_eq_ok h
+  obtain ⟨ns, hns, h⟩ := Outcome.bind_eq_ok h
+  obtain ⟨u, hu, h⟩ := Outcome.bind_eq_ok h
+  obtain ⟨sp, _, h⟩ := Outcome.bind_eq_ok h
+  obtain ⟨next, hnext, h⟩ := Outcome.bind_eq_ok h
+  cases h
+  refine ⟨rel, ns, hrel, hns, hu, ?_⟩
+  simp only
+  rw [createNextState_stakes _ _ _ _ _ _ hnext]
+
+/-- the input-processing step of `check_tx_validity` hits the lock test -/
+theorem checkTxValidity_locked (env : Env) (s : State) (lh : Header) (tx : Tx) (rel : Relevant)
+    (ns : AList Hash StakeDoc) (id : CoinID) (hid : id ∈ tx.inputs) (hl : legacyStakeLock s = false)
+    (hlock : (ns.contains id.txhash || (s.stakes.getStake id.txhash).isSome) = true) :
+    checkTxValidity env s lh tx rel ns ≠ .ok () := by
+  intro h
+  unfold checkTxValidity at h
+  obtain ⟨inCoins, hgo, _⟩ := Outcome.bind_eq_ok h
+  obtain ⟨i, hi⟩ : ∃ i, (id, i) ∈ tx.inputs.zipIdx := by
+    obtain ⟨i, hi, rfl⟩ := List.getElem_of_mem hid
+    exact ⟨i, by simp [List.mem_zipIdx_iff_getElem?]⟩
+  obtain ⟨b1, b2, hstep⟩ := Outcome.foldlM'_ok_mem _ _ _ _ _ hi hgo
+  simp [hlock, hl] at hstep
+
 end Mel
